@@ -150,6 +150,17 @@ func StressProgram(r *Rng) (string, string) {
 			return `s := "` + rep(`\n`, n*8) + "\"\nprint(s)\n", "many-escapes"
 		},
 		func() (string, string) {
+			// an if nested through its ELSE branches, with a connective as condition
+			cond := Pick(r, []string{"x > 0 && x < 9", "x > 0 || x < 9", "x > 0 && x < 9 && x != 5", "!(x > 0) || x == 1", "x == 1"})
+			var sb strings.Builder
+			sb.WriteString("x := 3\n")
+			for i := 0; i < n; i++ {
+				sb.WriteString("if " + cond + " {\nprint(" + fmt.Sprint(i) + ")\n} else {\n")
+			}
+			sb.WriteString("print(\"innermost\")\n" + rep("}\n", n))
+			return sb.String(), "else-nesting"
+		},
+		func() (string, string) {
 			// chained ranges and mixed subscripts on a string, a slice and a call result
 			sub := Pick(r, []string{"[1:]", "[:9]", "[0:9]", "[1:][0]", "[0:]"})
 			head := Pick(r, []string{"s := \"" + rep("abcdefgh", 40) + "\"\nprint(s", "xs := []int{1, 2, 3}\nprint(xs", "func names() []string {\n\treturn []string{\"a\"}\n}\nprint(names()", "print(\"" + rep("abcdefgh", 40) + "\""})
